@@ -470,6 +470,7 @@ class _function(object):
         elif _ismatrix(other):  # ie, dense 'd' or sparse
             if other.size[1] != 1:
                 raise ValueError('incompatible dimensions')
+            if _isspmatrix(other): other = matrix(other, tc='d')
         elif type(other) is variable:
             other = +other
         elif type(other) is not _function:
@@ -516,6 +517,7 @@ class _function(object):
         elif _ismatrix(other):
             if other.size[1] != 1: 
                 raise ValueError('incompatible dimensions')
+            if _isspmatrix(other): other = matrix(other, tc='d')
         elif type(other) is variable:
             other = +other
         elif type(other) is not _function:
@@ -560,6 +562,7 @@ class _function(object):
         elif _ismatrix(other):
             if other.size[1] != 1: 
                 raise ValueError('incompatible dimensions')
+            if _isspmatrix(other): other = matrix(other, tc='d')
         elif type(other) is variable:
             other = +other
         elif type(other) is not _function:
@@ -597,9 +600,10 @@ class _function(object):
         # convert other to matrix (dense 'd' or sparse) or _function
         if type(other) is int or type(other) is float:
             other = matrix(other, tc='d')
-        elif _isdmatrix(other):
+        elif _ismatrix(other):
             if other.size[1] != 1: 
                 raise ValueError('incompatible dimensions')
+            if _isspmatrix(other): other = matrix(other, tc='d')
         elif type(other) is variable:
             other = +other
         elif type(other) is not _function:
@@ -640,6 +644,7 @@ class _function(object):
         elif _ismatrix(other):
             if other.size[1] != 1: 
                 raise ValueError('incompatible dimensions')
+            if _isspmatrix(other): other = matrix(other, tc='d')
         elif type(other) is variable:
             other = +other
         elif type(other) is not _function:
